@@ -983,6 +983,11 @@ def e_Call(self, n, st):
         if f.attr == 'resize' and isinstance(recv, Num):
             args = [self.eval(a, st) for a in n.args]
             ia = _asint(args[0]) if args else None
+            fnq = self.cur.qname if self.cur else ''
+            self.events.append(('store', n, recv.shape, frozenset(), frozenset(), fnq))
+            self.events.append(('resize-zero', n, fnq))
+            if recv.view_of:
+                self.events.append(('inplace', n, recv.view_of, fnq))      # ndarray.resize works in place
             st.env[f.value.id] = recv.copy(shape=(ia.a if ia is not None else None,), taint=recv.taint | taint_of(args[0]) if args else recv.taint)
             return Const(None)
     # super(C, self).m(...)
